@@ -22,6 +22,9 @@ func c16(c *Ctx) {
 	c16R4(c)
 	c16R6(c)
 	c16R5(c)
+	// the request that is hashed is built from this call's options only: a merger never adopts an
+	// option's own struct, so one caller's arguments cannot show up in another caller's request
+	ruleFreshMergeTarget(c, "C16.R7", c.P.FuncsInPkg(clientPkg), "the option mergers of the cloud client (ApplyCreateNetworkInterface …)")
 }
 
 // orderTainted finds locals of fn that are appended to while ranging over a
